@@ -17,9 +17,67 @@ CLAIMED = {
         "differential testing on generated triples incl. function-typed arguments, Top/Bottom, non-functions; independent oracle.",
         technique="Lean 4 proof (mutual structural induction, reuse of the C01 order theorems) + model/implementation correspondence check",
         ref="6/C02"),
+ "C03": dict(text="Constraint-free engine full on the model: C03_unify_sound_partial (subtype mode, the only one Type.apply uses: solutions only shrink and the requested relation holds "
+        "under every remaining solution), C03_fix_sound, C03_instantiate_sound, C03_apply_sound, C03_apply_chain (every argument a subtype of its parameter, result = instantiated result), "
+        "C03_base_bound_never_compound, C03_witness_exists / C03_choice_exists / C03_acyclicB_sound (a witnessing instantiation exists for every choice within the reported bounds, for acyclic stores), "
+        "C03_concrete_link (the engine on variable-free types is the concrete model of C02). Partial: schemas with deferred subtype/elimination constraints are covered by correspondence (re-check order "
+        "fixed by the hook) and by the oracle (corner instantiations of the implementation's own final signature), not by a theorem; unify(subtype=False) has proved counterexamples "
+        "(C03_unify_plain_unsound_*), it is not reachable from Type.apply.",
+        technique="Lean 4 proof (simultaneous induction on fuel over the mutual unifier, store invariants, valuation semantics) + model/implementation correspondence check",
+        ref="6/C03"),
+ "C04": dict(text="Full on the model for languages whose operator signatures carry no deferred constraints: C04_stack_machine (generic invariant lemma for parse_expr over any builder), "
+        "C04_nodes / C04_parseTyped_nodes / C04_every_node (every application node of the parsed tree: function part has a function type whose input is a supertype of the argument's type and whose "
+        "output is the node's type, under every solution of the final store), C04_fix_nodes (preserved by Expr.fix), C04_call_nodes (programmatic construction), C04_annotation (e : T gives type(e) <= T), "
+        "C04_leaf_instance (an operator leaf is an instance of its declared signature). Partial: constrained signatures by correspondence + oracle (tree re-checked at the corners of the residual bounds, "
+        "accept/reject families with an independent subtype reference).",
+        technique="Lean 4 proof (stack-machine invariant over an abstract builder, reuse of the C03 soundness theorems) + model/implementation correspondence check",
+        ref="6/C04"),
+ "C05": dict(text="Full on the model (constraint-free): C05_above_chain / C05_below_chain (closed form: lower bound = greatest, upper bound = least argument of the chain), C05_above_perm / C05_supply_perm "
+        "(order independence, also for interleaved covariant and contravariant supplies), C05_crossing_fails, Top/Bottom cases, C05_mono / C05_apply_mono (specialising an argument keeps success and "
+        "never generalises the result), C05_apply_identity_chain (x ** ... ** x applied to a chain returns the least upper bound), C05_fix_least / C05_fix_extremal (fixing a single-polarity type yields "
+        "the least instantiation within the bounds; counterexamples show single polarity and independence are needed). Tie: chain tuples in every permutation and specialisation, closed-form oracle.",
+        technique="Lean 4 proof (state machine on (lower, upper, bound), permutation invariance from a closed form) + model/implementation correspondence check",
+        ref="6/C05"),
+ "C06": dict(text="Full on the model for linear alternatives: C06_fits_iff (the decidable 'fits' is exactly: some instance of the alternative is a supertype of the argument), C06_match3_eliminates "
+        "(the three-valued matcher answers 'definitely not' exactly when the argument does not fit), C06_filter_keeps_fitting / C06_accept_iff_fits_filter / C06_violation_iff_no_fit (the elimination "
+        "constraint is violated iff no alternative fits), C06_bounded_var* (the base-type case through the variable's bounds, repaired D3/D22), C06_fits_iff_needs_linear (counterexample for non-linear "
+        "alternatives). The unique-fit result and the 'between' clause are decided by correspondence + oracle on all concrete arguments of depth <= 2.",
+        technique="Lean 4 proof (polarity-indexed fits relation, fuel induction over the matcher) + model/implementation correspondence check",
+        ref="6/C06"),
+ "C07": dict(text="On the graph model: C07_queried_are_emitted / C07_membership_in_vocabulary (predicate names re-extracted from graph.py, query.py and the vocabulary on every run), C07_op_node, "
+        "C07_annotate_subtypeOf, C07_canonical_type_node, C07_subtypeOf_exact_plain (for a canon without Top/Bottom the subtypeOf set of a node with canonical type t is exactly the canonical supertypes "
+        "of t, via C10), C07_type_memo / C07_type_once (one node per distinct type), C07_triples_mono. Partial: with Top/Bottom canonical the transitive supertypes inherit known finding D6 (D6b); "
+        "the membership unions and non-canonical types are decided by correspondence (graph isomorphism with the model over random with_* switches) and the oracle.",
+        technique="Lean 4 proof (step-sequence invariants of the graph generator, reuse of C10/C14) + generated constants + model/implementation correspondence check (graph isomorphism)",
+        ref="6/C07"),
+ "C08": dict(text="On the graph model (types off, other switches arbitrary): C08_spine_one_node, C08_first_order (the from-edges equal those of an independently written spine layout flowFO), "
+        "C08_first_order_tree (one node per operator application, one per source, out-degree = number of arguments, nothing else), C08_hof_one_level_partial, C08_hof_nested, C08_hof_general "
+        "(higher-order expressions of any nesting depth: internal nodes and edges equal the declarative layout flowHO), C08_edges_config_independent. Not covered by a theorem: shared objects, "
+        "source-headed spines, abstractions (expanded composites) - these are decided by correspondence and by the independent Python data-flow construction.",
+        technique="Lean 4 proof (simulation of add_expr by a pure edge function, incremental-to-whole-spine invariant) + model/implementation correspondence check (graph isomorphism)",
+        ref="6/C08"),
+ "C10": dict(text="On the canon model: C10_succ_sound_* / C10_links_sound / C10_reach_sound (every reported link is a strict sub/supertype, all configurations), C10_succ_complete_step, "
+        "C10_reach_complete_tbfree_universe, C10_expandCanon_closed / C10_mkCanon_contains_subtypes / C10_canon_plain_iff (the canon is exactly the subtypes of the listed types), "
+        "C10_canon_no_bottom / C10_canon_no_top, C10_expandCanon_order_irrelevant, C10_complete_tbfree, C10_reach_iff_plain and C10_mirror_plain (reachability = strict order and mirroring when "
+        "neither Top nor Bottom is canonical). Partial: with Top/Bottom canonical completeness/mirroring fail (C10_counterexample_reach; known finding D6); the vocabulary triples are decided by "
+        "correspondence + oracle (known finding D24).",
+        technique="Lean 4 proof (covering-step completeness with a gap measure, work-list invariant, least closed set) + model/implementation correspondence check",
+        ref="6/C10"),
+ "C16": dict(text="On the model (definitions are immutable data; the inference store is the only thing threaded between uses): C16_instantiate_fresh / C16_instantiate_twice_disjoint, C16_unify_frame / "
+        "C16_fix_frame / C16_apply_frame / C16_definitions_untouched (only variables reachable from the current terms or freshly allocated change), C16_history_independent (instantiating a schema and "
+        "applying it to concrete arguments after ANY history gives the shifted result of the same run from the empty store), C16_history_content_irrelevant. Partial: constraint-free engine; the "
+        "shift statement for unify on arbitrary open terms is false of the model because of occurs-check fuel (C16_history_independent_unify_fails). Python-level aliasing is decided by "
+        "histories of parse/validate/graph/query calls on one Language followed by a probe compared with a fresh language and the model.",
+        technique="Lean 4 proof (frame and equivariance lemmas by induction over the mutual unifier) + model/implementation correspondence over histories",
+        ref="6/C16"),
+ "C19": dict(text="On the model: C19_worklist / C19_worklist_mkCanon (the canon does not depend on the order the work list is processed), C19_foldl_add_perm / C19_emission_perm(_canonical) (the triple "
+        "set does not depend on the order in which set-valued collections are emitted), C19_model_deterministic. Partial by nature: hash-seed and allocation-history dependence is runtime behaviour "
+        "no model exhibits; it is exercised by generating every graph in fresh interpreters (PYTHONHASHSEED 0-3, random; after unrelated graphs; reversed listing) and comparing canonical digests.",
+        technique="Lean 4 proof (permutation invariance of set-emitting folds) + cross-interpreter determinism check",
+        ref="6/C19"),
  "C09": dict(text="Full for the repaired add_from: C09_step proves that one add_from call (plain and recursive branch, cycles allowed) keeps "
         "depends = transitive closure of from, C09_all lifts it to every call sequence in every order, C09_transitiveObjects proves the modelled "
-        "rdflib transitive_objects (fuelled BFS) correct. Tie: recorded add_from call sequences of the real graph (random sequences and the calls made "
+        "rdflib transitive_objects (fuelled BFS) correct; C09_expression_graph / C09_workflow_graph lift it to every graph the modelled add_expr / add_workflow produce. Tie: recorded add_from call sequences of the real graph (random sequences and the calls made "
         "by add_expr/add_workflow) are replayed on the model and the depends sets compared; oracle recomputes the closure of the real from-triples.",
         technique="Lean 4 proof (invariant by induction over the operation sequence; path-splitting lemma) + model/implementation correspondence check",
         ref="6/C09"),
